@@ -313,6 +313,102 @@ func concRun(r *rng, fsys fs.FileSystem, dir string, nGor, nKeys, opsPer int, wi
 	}
 }
 
+// concGrow: a database that grows (index splits move keys between buckets inside Puts) while readers
+// look up keys whose Put has already returned and that nobody deletes: every such read must find the
+// key with its value (any sequential order that respects real time has the Put before the read).
+func concGrow(r *rng, fsys fs.FileSystem, dir string, nKeys, nReaders int, res *Result, name string) int {
+	db, err := pogreb.Open(dir, &pogreb.Options{FileSystem: fsys})
+	if err != nil {
+		res.Findings = append(res.Findings, &Finding{Kind: "spec", Case: name, Cmd: "open", Impl: []string{err.Error()}, Expected: []string{"open ok"}, Program: []string{}})
+		return 0
+	}
+	defer db.Close()
+	var acked int64
+	var mu sync.Mutex
+	var bad []string
+	var reads int64
+	key := func(i int) []byte { return []byte(fmt.Sprintf("grow-%06d", i)) }
+	val := func(i int) []byte { return []byte(fmt.Sprintf("value-%d", i)) }
+	var wg sync.WaitGroup
+	stop := make(chan struct{})
+	for g := 0; g < nReaders; g++ {
+		wg.Add(1)
+		rr := r.fork()
+		go func(g int) {
+			defer wg.Done()
+			for {
+				select {
+				case <-stop:
+					return
+				default:
+				}
+				n := int(atomic.LoadInt64(&acked))
+				if n == 0 {
+					runtime.Gosched()
+					continue
+				}
+				i := rr.intn(n)
+				var got string
+				var what string
+				switch rr.intn(3) {
+				case 0:
+					v, err := db.Get(key(i))
+					what = "Get"
+					if err != nil {
+						got = "error " + err.Error()
+					} else if v == nil {
+						got = "nil (key absent)"
+					} else if string(v) != string(val(i)) {
+						got = "value " + string(v)
+					}
+				case 1:
+					ok, err := db.Has(key(i))
+					what = "Has"
+					if err != nil {
+						got = "error " + err.Error()
+					} else if !ok {
+						got = "false"
+					}
+				default:
+					v, err := db.GetAppend(key(i), []byte("p"))
+					what = "GetAppend"
+					if err != nil {
+						got = "error " + err.Error()
+					} else if string(v) != "p"+string(val(i)) {
+						got = "result " + string(v)
+					}
+				}
+				atomic.AddInt64(&reads, 1)
+				if got != "" {
+					mu.Lock()
+					if len(bad) < 3 {
+						bad = append(bad, fmt.Sprintf("%s(%s) returned %s after Put(%s, %s) had returned (%d Puts acknowledged, none deleted); only Puts of OTHER new keys were running",
+							what, key(i), got, key(i), val(i), n))
+					}
+					mu.Unlock()
+				}
+			}
+		}(g)
+	}
+	for i := 0; i < nKeys; i++ {
+		if err := db.Put(key(i), val(i)); err != nil {
+			break
+		}
+		atomic.StoreInt64(&acked, int64(i+1))
+		if i%64 == 0 {
+			runtime.Gosched()
+		}
+	}
+	close(stop)
+	wg.Wait()
+	if len(bad) > 0 {
+		res.Findings = append(res.Findings, &Finding{Kind: "spec", Case: name, Cmd: "readers of acknowledged keys while the database grows",
+			Impl: bad, Expected: []string{"every acknowledged, never deleted key is found with its value"},
+			Program: []string{fmt.Sprintf("1 writer: Put grow-000000 .. grow-%06d in order", nKeys-1), fmt.Sprintf("%d readers: Get/Has/GetAppend of random keys below the acknowledged watermark", nReaders)}})
+	}
+	return int(reads)
+}
+
 func genC07(r *rng, tier string, res *Result) {
 	n := scale(tier, 40, 1500)
 	st := &concStats{}
@@ -333,6 +429,18 @@ func genC07(r *rng, tier string, res *Result) {
 		res.Cases++
 		res.Distinct++
 	}
+	growReads := 0
+	for i := 0; i < scale(tier, 8, 100); i++ {
+		var fsys fs.FileSystem = tfs.New()
+		dir := "db"
+		if i%2 == 1 {
+			fsys, dir = fs.OSMMap, filepath.Join(tmp, fmt.Sprintf("g%d", i))
+		}
+		growReads += concGrow(r, fsys, dir, 400+r.intn(1200), 2+r.intn(5), res, fmt.Sprintf("C07/grow/%d", i))
+		res.Cases++
+	}
+	res.Tags["reads_of_acknowledged_keys_during_growth"] = growReads
+	st.ops += growReads
 	res.Steps = st.ops
 	res.SpecChecked = st.ops
 	res.Tags["operations_in_checked_histories"] = st.ops
